@@ -65,7 +65,9 @@ func (c *Collection) Snapshot(dst io.Writer) error {
 
 	// Take a snapshot of the current state
 	defer os.Remove(recorder.Name())
+	defer recorder.Close()
 	if _, err := c.writeState(s2.NewWriter(dst)); err != nil {
+		c.recorderClose() // a failed snapshot must not keep the recorder (and block later ones)
 		return err
 	}
 
@@ -80,6 +82,8 @@ func (c *Collection) recorderOpen() (log *commit.Log, err error) {
 		dst := (*unsafe.Pointer)(unsafe.Pointer(&c.record))
 		ptr := unsafe.Pointer(log)
 		if !atomic.CompareAndSwapPointer(dst, nil, ptr) {
+			log.Close()
+			os.Remove(log.Name())
 			return nil, fmt.Errorf("column: unable to snapshot, another one might be in progress")
 		}
 	}
